@@ -27,6 +27,8 @@ type thr struct {
 	pos     string // last point reached ("" before start)
 	done    bool
 	freed   bool
+	cancel  context.CancelFunc
+	failing bool // its context was cancelled while it was writing
 	result  chan error
 	err     error
 }
@@ -44,7 +46,8 @@ type bench struct {
 }
 
 var senderSeg = map[string][]string{
-	">sc.req.pendingAdded":                 {"gate"},
+	">sc.req.gateOpen":                     {}, // gate seen open, under the gate's mutex; not yet counted
+	"sc.req.gateOpen>sc.req.pendingAdded":  {"gate"},
 	"sc.req.pendingAdded>sc.req.gotActive": {"active"},
 	"sc.req.gotActive>sc.send.locked":      {"locki"},
 	"sc.send.locked>sc.send.chunk":         {},
@@ -112,9 +115,11 @@ func (b *bench) launch(t *thr, maxBody int) {
 			big = (t.chunks-1)*maxBody + 100
 		}
 		req := mkRequest(tyWrite, 1000+t.idx, big)
+		ctx, cancel := context.WithCancel(context.Background())
+		t.cancel = cancel
 		go func() {
 			b.ctl.Bind(t.name)
-			err := b.p.SC.SendRequestWithTimeout(context.Background(), req, nil, 3*time.Second, func(ua.Response) error { return nil })
+			err := b.p.SC.SendRequestWithTimeout(ctx, req, nil, 3*time.Second, func(ua.Response) error { return nil })
 			b.ctl.Done()
 			t.result <- err
 		}()
@@ -189,6 +194,9 @@ func (b *bench) observe(first *thr) {
 		}
 		if !ok {
 			b.log = append(b.log, fmt.Sprintf("unmapped segment %s of %s", key, t.name))
+		}
+		if t.failing && key == "sc.send.chunk>sc.req.sent" {
+			seg = []string{"fail", "unlocki", "done"} // the chunk loop saw the cancelled context: nothing written
 		}
 		for _, e := range seg {
 			if t.kind == "R" {
@@ -363,7 +371,8 @@ func c11run(r *rng.R, sp c11spec) error {
 	if len(sp.order) > 0 {
 		for _, o := range sp.order {
 			star := strings.HasSuffix(o, "*")
-			t := b.byName(strings.TrimSuffix(o, "*"))
+			bang := strings.HasSuffix(o, "!")
+			t := b.byName(strings.TrimSuffix(strings.TrimSuffix(o, "*"), "!"))
 			if t == nil {
 				return fmt.Errorf("unknown thread %s", o)
 			}
@@ -388,7 +397,13 @@ func c11run(r *rng.R, sp c11spec) error {
 						break
 					}
 				}
-				schedule = append(schedule, t.name)
+				if bang && t.cancel != nil {
+					t.cancel()
+					t.failing = true
+					schedule = append(schedule, t.name+"!")
+				} else {
+					schedule = append(schedule, t.name)
+				}
 				st := b.stepThread(t, maxBody)
 				if !star || st == "done" {
 					break
@@ -439,7 +454,13 @@ func c11run(r *rng.R, sp c11spec) error {
 				continue
 			}
 			t := c2[r.Intn(len(c2))]
-			schedule = append(schedule, t.name)
+			if t.kind == "S" && t.chunks > 1 && !t.failing && ctl.ParkedAt(t.name) == "sc.send.chunk" && r.Intn(6) == 0 {
+				t.cancel()
+				t.failing = true
+				schedule = append(schedule, t.name+"!")
+			} else {
+				schedule = append(schedule, t.name)
+			}
 			b.stepThread(t, maxBody)
 		}
 	}
@@ -479,11 +500,20 @@ func c11(seed uint64, n int, schedArg string) {
 	specs := []c11spec{
 		// the schedules that produced duplicate numbers / interleaved messages before fix dd66ad2: the sender is
 		// counted as soon as it is past the gate, so the renewal now blocks in pendingReq.Wait() until it is done
-		{name: "witness-renewal-window", chunks: []int{1}, renews: 1, order: []string{"S0", "R0*", "S0*", "R0*"}},
+		{name: "witness-renewal-window", chunks: []int{1}, renews: 1, order: []string{"S0", "S0", "R0*", "S0*", "R0*"}},
 		{name: "witness-interleaved-messages", chunks: []int{2, 2}, renews: 1,
-			order: []string{"S0", "R0*", "S1", "S0", "S1", "S0", "S1", "S0", "S0*", "R0*", "S1*"}},
+			order: []string{"S0", "S0", "R0*", "S1", "S0", "S1", "S0", "S1", "S0", "S0*", "R0*", "S1*"}},
 		// a renewal that times out after its OPN was written (fix 5bac950: the counter is handed back)
 		{name: "witness-failed-renewal", chunks: []int{1}, renews: 1, holdOPN: true, order: []string{"R0*", "S0*"}},
+		// the gate check and pendingReq.Add are one step: while a sender is inside waitIfLockThen (gate seen open,
+		// not yet counted) the renewer cannot even lock the gate
+		{name: "witness-gate-atomic", chunks: []int{1}, renews: 1, order: []string{"S0", "R0", "R0", "R0", "S0*", "R0*", "S0*"}},
+		// a 3-chunk request whose context is cancelled after its first chunk is on the wire, then another request
+		{name: "fail-between-chunks", chunks: []int{3, 1}, renews: 0,
+			order: []string{"S0", "S0", "S0", "S0", "S0", "S0", "S0!", "S1*"}},
+		// a request whose context is cancelled before its first chunk: its number is used up (known finding)
+		{name: "fail-before-first-chunk", chunks: []int{1, 1, 1}, renews: 0,
+			order: []string{"S0*", "S1", "S1", "S1", "S1", "S1", "S1!", "S2*"}},
 		{name: "renewal-under-load", chunks: []int{3, 2}, renews: 1,
 			order: []string{"S0", "S0", "R0", "S0*", "R0*", "S1*"}},
 	}
